@@ -497,6 +497,7 @@ func (s *server) ReadRows(req *btpb.ReadRowsRequest, stream btpb.Bigtable_ReadRo
 		// Reverse the lock while streaming the row out.
 		tbl.mu.RUnlock()
 		defer tbl.mu.RLock()
+		verifPoint("ReadRows.unlocked", nil)
 		return stream.Send(&btpb.ReadRowsResponse{Chunks: cb.chunks})
 	}
 
@@ -937,14 +938,17 @@ func (s *server) MutateRow(ctx context.Context, req *btpb.MutateRowRequest) (*bt
 	}
 
 	defer tbl.write()
+	verifPoint("MutateRow.beforeLock", req.RowKey)
 	tbl.mu.Lock()
 	defer tbl.mu.Unlock()
 	now := s.clock()
 	r := tbl.getOrCreateRow(req.RowKey)
+	verifPoint("MutateRow.afterRead", req.RowKey)
 
 	if err := applyMutations(tbl, r, req.Mutations, now); err != nil {
 		return nil, err
 	}
+	verifPoint("MutateRow.beforeWrite", req.RowKey)
 	tbl.updateRow(r)
 	return &btpb.MutateRowResponse{}, nil
 }
@@ -959,18 +963,21 @@ func (s *server) MutateRows(req *btpb.MutateRowsRequest, stream btpb.Bigtable_Mu
 	res := &btpb.MutateRowsResponse{Entries: make([]*btpb.MutateRowsResponse_Entry, len(req.Entries))}
 
 	defer tbl.write()
+	verifPoint("MutateRows.beforeLock", nil)
 	tbl.mu.Lock()
 	defer tbl.mu.Unlock()
 	now := s.clock()
 
 	for i, entry := range req.Entries {
 		r := tbl.getOrCreateRow(entry.RowKey)
+		verifPoint("MutateRows.afterRead", entry.RowKey)
 
 		code, msg := int32(codes.OK), ""
 		if err := applyMutations(tbl, r, entry.Mutations, now); err != nil {
 			code = int32(codes.Internal)
 			msg = err.Error()
 		}
+		verifPoint("MutateRows.beforeWrite", entry.RowKey)
 		tbl.updateRow(r)
 		res.Entries[i] = &btpb.MutateRowsResponse_Entry{
 			Index:  int64(i),
@@ -990,10 +997,12 @@ func (s *server) CheckAndMutateRow(ctx context.Context, req *btpb.CheckAndMutate
 	res := &btpb.CheckAndMutateRowResponse{}
 
 	defer tbl.write()
+	verifPoint("CheckAndMutateRow.beforeLock", req.RowKey)
 	tbl.mu.Lock()
 	defer tbl.mu.Unlock()
 	now := s.clock()
 	r := tbl.getOrCreateRow(req.RowKey)
+	verifPoint("CheckAndMutateRow.afterRead", req.RowKey)
 
 	// Figure out which mutation to apply.
 	whichMut := false
@@ -1020,6 +1029,7 @@ func (s *server) CheckAndMutateRow(ctx context.Context, req *btpb.CheckAndMutate
 	if err := applyMutations(tbl, r, muts, now); err != nil {
 		return nil, err
 	}
+	verifPoint("CheckAndMutateRow.beforeWrite", req.RowKey)
 	tbl.updateRow(r)
 	return res, nil
 }
@@ -1177,10 +1187,12 @@ func (s *server) ReadModifyWriteRow(ctx context.Context, req *btpb.ReadModifyWri
 	}
 
 	defer tbl.write()
+	verifPoint("ReadModifyWriteRow.beforeLock", req.RowKey)
 	tbl.mu.Lock()
 	defer tbl.mu.Unlock()
 	now := s.clock()
 	r := tbl.getOrCreateRow(req.RowKey)
+	verifPoint("ReadModifyWriteRow.afterRead", req.RowKey)
 	resultRow := &btpb.Row{Key: req.RowKey} // copy of updated cells
 	cols := tbl.cols()
 
@@ -1233,6 +1245,7 @@ func (s *server) ReadModifyWriteRow(ctx context.Context, req *btpb.ReadModifyWri
 	}
 
 	r, _ = scrubRow(r, cols)
+	verifPoint("ReadModifyWriteRow.beforeWrite", req.RowKey)
 	tbl.rows.ReplaceOrInsert(r)
 	resultRow, _ = scrubRow(resultRow, cols)
 	return &btpb.ReadModifyWriteRowResponse{Row: resultRow}, nil
@@ -1429,6 +1442,7 @@ func (t *table) gc(now bigtable.Timestamp, done <-chan struct{}, force bool) {
 		// Reverse lock; check if we should exit
 		t.mu.Unlock()
 		defer t.mu.Lock()
+		verifPoint("gc.unlocked", r.Key)
 		select {
 		case <-done:
 			return false // server has been closed
